@@ -27,7 +27,8 @@ class DealFinder(PathFinder):
     @classmethod
     def find_spec(cls, *args, **kwargs):
         spec = super().find_spec(*args, **kwargs)
-        if spec is not None:  # pragma: no cover
+        # namespace packages have no loader (and no source to check)
+        if spec is not None and spec.loader is not None:  # pragma: no cover
             spec.loader = DealLoader(spec.loader)
         return spec
 
